@@ -119,6 +119,30 @@ class Excs:
         return ['?']
 
 
+def ann_optional(a: Optional[ast.AST]) -> bool:
+    """Does a return annotation admit None?"""
+    if a is None:
+        return False
+    if isinstance(a, ast.Constant) and isinstance(a.value, str):
+        try:
+            a = ast.parse(a.value.strip(), mode='eval').body
+        except SyntaxError:
+            return False
+    if isinstance(a, ast.Constant) and a.value is None:
+        return False    # `-> None`: a procedure, its result is not used
+    if isinstance(a, ast.Subscript):
+        h = (dotted(a.value) or '').split('.')[-1]
+        if h == 'Optional':
+            return True
+        if h == 'Union':
+            el = a.slice.elts if isinstance(a.slice, ast.Tuple) else [a.slice]
+            return any(isinstance(e, ast.Constant) and e.value is None for e in el)
+    if isinstance(a, ast.BinOp) and isinstance(a.op, ast.BitOr):
+        return ann_optional(a.left) or ann_optional(a.right) or \
+            any(isinstance(x, ast.Constant) and x.value is None for x in (a.left, a.right))
+    return False
+
+
 class Source:
     __slots__ = ('func', 'node', 'excs', 'label', 'kind')
 
@@ -246,6 +270,23 @@ class Escape:
                     self.sources.append(src)
                     for c in classes:
                         items.append((n, c, src))
+            # T4: result of a function declared Optional[...] used directly where None is not acceptable
+            for n in f.walk():
+                if not isinstance(n, ast.Call):
+                    continue
+                ctx = self._none_sensitive_context(n)
+                if ctx is None:
+                    continue
+                cal, how = r.callees(n, f)
+                if not cal or how not in ('direct', 'method'):
+                    continue
+                if not all(not isinstance(g.node, ast.Lambda) and ann_optional(g.node.returns) for g in cal):
+                    continue
+                classes = ['AttributeError'] if ctx == 'attribute access' else ['TypeError']
+                src = Source(f, n, classes, f'Optional result of {norm(n.func)[:40]}() used in {ctx}', 'T4')
+                self.sources.append(src)
+                for c in classes:
+                    items.append((n, c, src))
             # T2: declared raises of the function itself (abstract / documented contract)
             if f.qn in self.declared:
                 src = Source(f, f.node, list(self.declared[f.qn]), 'declared contract', 'T2')
@@ -255,6 +296,23 @@ class Escape:
             self.local[f.qn] = items
         for s in self.sources:
             self._src_index[id(s)] = s
+
+    @staticmethod
+    def _none_sensitive_context(c: ast.Call) -> Optional[str]:
+        p = getattr(c, '_parent', None)
+        if isinstance(p, ast.BinOp) and not isinstance(p.op, ast.BitOr):
+            return 'arithmetic'
+        if isinstance(p, ast.Attribute) and p.value is c:
+            return 'attribute access'
+        if isinstance(p, ast.Subscript) and p.value is c:
+            return 'subscript'
+        if isinstance(p, ast.Call) and p.func is c:
+            return 'call'
+        if isinstance(p, ast.Compare) and any(isinstance(o, (ast.Lt, ast.Gt, ast.LtE, ast.GtE)) for o in p.ops):
+            return 'ordering comparison'
+        if isinstance(p, ast.UnaryOp) and isinstance(p.op, (ast.USub, ast.UAdd, ast.Invert)):
+            return 'arithmetic'
+        return None
 
     def _t1_lookup(self, name: str, call: ast.Call, f: Func) -> Optional[dict]:
         if not name:
@@ -467,6 +525,24 @@ class Escape:
                     continue
                 todo.append((s.func, path + [f'<- {s.func.qn} ({s.loc})']))
         return None, stops
+
+    # ------------------------------------------------------------ zero-count self check
+    @staticmethod
+    def fixture_selfcheck() -> List[str]:
+        """The T1b / T4 source rules match nothing on today's tree: make sure they still fire on the fixture."""
+        import os
+        from .callgraph import CallGraph as _CG
+        root = os.path.join(os.path.dirname(os.path.abspath(__file__)), 'fixtures', 't4')
+        repo = Repo(root)
+        e = Escape(repo, _CG(repo), {}, {})
+        got = {(s.func.name, s.kind) for s in e.sources}
+        problems = []
+        for want in (('bad_arith', 'T4'), ('bad_attr', 'T4'), ('bad_format', 'T1')):
+            if want not in got:
+                problems.append(f'fixture source {want} not detected')
+        if ('good_arith', 'T4') in got:
+            problems.append('guarded fixture good_arith wrongly flagged')
+        return problems
 
     # ------------------------------------------------------------ queries
     def path(self, fqn: str, key: Tuple[str, int]) -> List[str]:
